@@ -38,6 +38,11 @@ def correspondence(res, tier, rng):
         pdyn = oqupy.compute_dynamics(case["system"], initial_state=case["rho0"], process_tensor=pt,
                                       start_time=case["start"], num_steps=n, progress_type="silent")
         real_p = [np.array(s).reshape(-1) for s in pdyn.states]
+        # the same contraction recording only the final state
+        fdyn = oqupy.compute_dynamics(case["system"], initial_state=case["rho0"], process_tensor=pt,
+                                      start_time=case["start"], num_steps=n, record_all=False,
+                                      progress_type="silent")
+        case["desc"]["_final_only"] = np.array(fdyn.states[-1]).reshape(-1)
         paths = sample_paths(rng, L, n, 12)
         psec = " | ".join("paths " + " ".join(map(str, p)) for p in paths)
         tl += [tline, tline.replace("tempo", "ptinfl", 1) + " | " + psec,
@@ -52,6 +57,31 @@ def correspondence(res, tier, rng):
             res.count("%s=%s" % (k, case["desc"][k]))
         res.count("memory=%s" % ("full" if case["dkmax"] is None else
                                  ("cut<n" if case["dkmax"] < n else "cut>=n")))
+    # long runs far beyond the memory cut-off with an infinite additional correlation time: the
+    # theorems hold for every n; the model is too costly to evaluate there, so the two real code
+    # paths the theorem equates are compared with each other (TEMPO vs PT-TEMPO + compute_dynamics)
+    from oqupy import operators as op
+    for (alpha, nlong) in ([(0.01, 120)] if tier == "quick" else [(0.01, 160), (0.05, 120)]):
+        corr = oqupy.PowerLawSD(alpha=alpha, zeta=1.0, cutoff=5.0, cutoff_type="exponential",
+                                temperature=0.0)
+        bath = oqupy.Bath(0.5 * op.sigma("z"), corr)
+        sysm = oqupy.System(0.5 * op.sigma("x"))
+        par = oqupy.TempoParameters(dt=0.2, epsrel=1e-9, dkmax=3, add_correlation_time=np.inf)
+        tt = oqupy.Tempo(sysm, bath, par, op.spin_dm("z+"), start_time=0.0)
+        dl = tt.compute(nlong * 0.2 + 0.05, progress_type="silent")
+        ptl = oqupy.pt_tempo_compute(bath=bath, start_time=0.0, end_time=nlong * 0.2 + 0.05,
+                                     parameters=par, progress_type="silent")
+        pdl = oqupy.compute_dynamics(sysm, initial_state=op.spin_dm("z+"), process_tensor=ptl,
+                                     start_time=0.0, progress_type="silent")
+        el = max(np.abs(np.array(a) - np.array(b)).max() for a, b in zip(dl.states, pdl.states))
+        res.case("long-run alpha=%g n=%d" % (alpha, nlong), True,
+                 {"long_run": {"alpha": alpha, "steps": nlong, "dkmax": 3, "add_correlation_time": "inf"},
+                  "Tempo_vs_PT+compute_dynamics": el})
+        res.count("long-run")
+        if len(dl.states) != len(pdl.states) or el > 2e-6:
+            res.disagree("long run (%d steps, dkmax=3, add_correlation_time=inf): TEMPO and "
+                         "PT-TEMPO+compute_dynamics differ by %g" % (nlong, el),
+                         {"alpha": alpha, "steps": nlong})
     tout = fw.run_driver("PathSum", tl)
     pout = fw.run_driver("PT", pl)
     for i, (desc, real_t, real_p) in enumerate(meta):
@@ -59,6 +89,10 @@ def correspondence(res, tier, rng):
         mt = tensors.parse_states(tout[3 * i], L)
         mp = tensors.parse_states(pout[3 * i], L)
         caps_real = desc.pop("_caps")
+        e6 = np.abs(desc.pop("_final_only") - mp[-1]).max()
+        if e6 > TOL:
+            res.disagree("compute_dynamics(record_all=False) differs from the last state of "
+                         "mpoRecord by %g" % e6, desc)
         caps_model = tensors.parse_states(pout[3 * i + 2], L)
         e5 = max(np.abs(a - b).max() for a, b in zip(caps_real, caps_model))
         toks = tout[3 * i + 2].split()
